@@ -201,19 +201,23 @@ func (s *Service) GetPipe(name string) (PipeDesc, error) {
 // partition must be deleted via partition.Truncate method
 func (s *Service) DeletePipe(name string) error {
 	err := errors.NotFound
+	var deleted *ppipe
 	s.logger.Info("Deleting pipe ", name)
 	s.lock.Lock()
 	if p, ok := s.ppipes[name]; ok {
 		// changing the s.ppipes we need to drop the notification cache as well
 		s.weCache = make(map[string][]*ppipe)
 		delete(s.ppipes, name)
-		go p.delete()
+		deleted = p
 		err = nil
 	} else {
 		s.logger.Warn("Pipe with name ", name, " is not found.")
 	}
 	s.lock.Unlock()
 	if err == nil {
+		// the pipe's workers are cancelled and its positions file is gone before the deletion is acknowledged:
+		// a pipe created under the same name afterwards starts from nothing
+		deleted.delete()
 		s.savePipes()
 	}
 	return err
